@@ -211,7 +211,7 @@ PROPS["C08"] = {
     "drivers": [{"driver": "sign", "trace": "Trace_Ecdsa"}],
     "require_classes": {"quick": ["d_one", "d_nm1", "pub_yodd", "pub_yeven", "digest_zero", "digest_ones", "digest_ge_n", "v0", "v1",
                                   "sv_same", "inadmissible_len", "inadmissible_enc", "rfc6979", "hedged", "sign_len_long", "enc_asn1", "enc_compact",
-                                  "enc_rec", "nil_opts", "build_der", "build_short", "build_compact"]},
+                                  "enc_rec", "nil_opts", "build_der", "build_short", "build_compact", "after_derive", "accept"]},
     "assumptions": ["x(R) >= n, r = 0 and s = 0 cannot be reached through signing at full size (2^-128); those branches are covered on the miniature model "
                     "and, for ids 2/3, by C11's direct recovery events"],
 }
